@@ -637,3 +637,73 @@ func TestC07_FarIndexes(t *testing.T) {
 		cl.done(span > math.MaxInt32)
 	})
 }
+
+// TestC07_PlainDecodesExactLongCount: direction C with a count block that takes all nine varfloat bytes. The total
+// weight of an exact-summary sketch is an integer in [2^51, 2^53) or a fraction with a full 52-bit significand (one
+// weighted add, or two whose sum is exact), so that the ninth byte of the count carries arbitrary bits, the top one
+// included; the plain decoder must skip exactly that block and decode the rest into every store kind.
+func TestC07_PlainDecodesExactLongCount(t *testing.T) {
+	rapid.Check(t, func(t *rapid.T) {
+		cl := newCase("C07")
+		cl.label("direction:C")
+		spec, m := buildMapping(t, 1e-3, 0.3)
+		var w float64
+		switch rapid.IntRange(0, 3).Draw(t, "wclass") {
+		case 0:
+			w = rapid.SampledFrom([]float64{0x1p52 + 1, 0x1p52 + 2, 0x1p53 - 3, 0x1p53 - 1, 0x1p51 + 1, 0.5 + 0x1p-51, 1.5 + 0x1p-52, 0x1p52}).Draw(t, "wnamed")
+		case 1:
+			w = float64(rapid.Uint64Range(1<<51, 1<<53-1).Draw(t, "wint"))
+		default:
+			w = math.Float64frombits(rapid.Uint64Range(math.Float64bits(0x1p-30), math.Float64bits(0x1p52)).Draw(t, "wbits"))
+		}
+		prodKind := gen.NonCollapsingKind().Draw(t, "prodkind")
+		sc := skCfg{spec: spec, m: m, pos: prodKind, neg: prodKind, exact: true}
+		src := sc.new()
+		v := gen.ClampPos(m, rapid.SampledFrom([]float64{1, 2.5, 1000, 1e-3}).Draw(t, "v"))
+		if rapid.Bool().Draw(t, "neg") {
+			v = -v
+		}
+		if rapid.IntRange(0, 4).Draw(t, "zero") == 0 {
+			v = 0
+		}
+		if err := src.AddWithCount(v, w); err != nil {
+			t.Fatalf("C07/C long count: AddWithCount(%v,%v): %v", v, w, err)
+		}
+		cl.logf("C07/C long count %s producer=%s value %v weight %x", spec, prodKind, v, math.Float64bits(w))
+		omit := rapid.Bool().Draw(t, "omit")
+		var b []byte
+		src.Encode(&b, omit)
+		content, _, err := refdec.Parse(b)
+		if err != nil {
+			t.Fatalf("C07/C long count: the encoding does not parse: %v", err)
+		}
+		if !content.HasCount || !obs.FEq(content.Count, refdec.VarfloatTransform(w)) {
+			t.Fatalf("C07/C long count: count block %v (present=%v), total weight %v", content.Count, content.HasCount, w)
+		}
+		cl.labelIf(refdec.VarfloatLen(w) == 9, "count-block:9-bytes")
+		cl.labelIf(refdec.VarfloatLen(w) == 9 && refdec.AppendVarfloat(nil, w)[8] >= 0x80, "count-block:9th-byte-top-bit")
+		want := refdec.VarfloatTransform(w)
+		for _, tk := range []gen.StoreKind{{Name: "dense"}, {Name: "sparse"}, {Name: "paginated"}, {Name: "collow", N: 4}, {Name: "colhigh", N: 4}} {
+			var sup mapping.IndexMapping
+			if omit {
+				sup = m
+			}
+			dec, err := ddsketch.DecodeDDSketch(b, tk.Provider(), sup)
+			if err != nil {
+				t.Fatalf("C07/C long count: DecodeDDSketch(encoding of an exact-summary sketch of total weight %v) into %s failed: %v (stream % x)", w, tk, err, b)
+			}
+			got := map[float64]float64{}
+			dec.ForEach(func(x, c float64) bool { got[x] += c; return false })
+			if len(got) != 1 || !obs.FEq(dec.GetCount(), want) {
+				t.Fatalf("C07/C long count -> %s: decoded bins %v count %v, want one bin of weight %v", tk, got, dec.GetCount(), want)
+			}
+			// and as a decode-merge into a non-empty plain sketch
+			r := ddsketch.NewDDSketch(m, tk.New(), tk.New())
+			_ = r.Add(gen.ClampPos(m, 7))
+			if err := r.DecodeAndMergeWith(b); err != nil {
+				t.Fatalf("C07/C long count: DecodeAndMergeWith into a non-empty %s sketch failed: %v", tk, err)
+			}
+		}
+		cl.done(true)
+	})
+}
